@@ -1259,8 +1259,8 @@ class SpectrumResult:
                     val = np.abs(
                         self.Gyy
                         + self.Hxy * self.Hyx * self.Gxx
-                        - self.Hyx * self.Gxy
-                        - self.Hxy * self.Gyx
+                        - self.Hxy * self.Gxy
+                        - self.Hyx * self.Gyx
                     )
 
         # --- Errors and Deviations ---
